@@ -83,3 +83,16 @@ Definition session_poll (shutdown_first notified feed_lost coin : bool) : wind :
    listener's return ends the process at once. *)
 Definition process_may_exit (waits : bool) (s : sstate) (listener_returned : bool) : bool :=
   if waits then completion_done s else listener_returned.
+
+(* The wind-down of a notified HTTP/1.1 session (http1_codec.rs graceful_shutdown): what is left of the download has to be written
+   to the client, flushed, and the transport shut down, all of which needs the client to take bytes. [taken_at] = when the client
+   has taken all of it, in ms after the call (None = never: a client that has stopped reading and stays connected).
+   [bounded] = HTTP1_ORDERLY_CLOSE_BOUNDED: the whole orderly close runs under one bound [B]; on expiry the call fails and the
+   connection is closed by the drop of the codec (what was left is lost with the failed connection). As found the writes and the
+   flush had no bound: the session of a client that reads nothing never finished, and completion never returned.
+   Some (t, orderly) = the session finishes t ms after it was notified; None = it never does. *)
+Definition h1_close (bounded : bool) (B : N) (taken_at : option N) : option (N * bool) :=
+  match taken_at with
+  | Some t => if bounded && negb (t <? B) then Some (B, false) else Some (t, true)
+  | None => if bounded then Some (B, false) else None
+  end.
